@@ -468,13 +468,62 @@ def r02_9(ctx):
         elif has("LIMITED_QUIRKY_PUBLIC_PREFIXES", True):
             exp = "LimitedQuirks"
         elif has("HTML4_PUBLIC_PREFIXES", True):
-            exp = "Quirks" if has("system_id.map(|..|{a1.to_ascii_lowercase()}) matches None", True) else "LimitedQuirks"
+            exp = "Quirks" if (has("system_id.map(|..|{a1.to_ascii_lowercase()}) matches None", True) or has("system_id.map(|..|{a1.to_ascii_lowercase()}) matches Some(_)", False)) else "LimitedQuirks"
         else:
             exp = "NoQuirks"
         facts += 1
         ctx.ob("R02.9", "quirks-decision/" + ",".join("%s=%s" % (re.sub(r"[^A-Za-z0-9_.]+", "_", k)[:40], v) for k, v in sorted(g.items()) if "matches (Some" not in k)[:300], mode == exp,
                "decides %s as the standard does" % exp if mode == exp else "decides %s where the standard says %s" % (mode, exp), "html5ever/src/tree_builder/data.rs doctype_error_and_quirks")
     ctx.floor("R02.9", "quirks-facts", facts, 60)
+
+
+def r02_10(ctx):
+    """'reset the insertion mode appropriately': element name (and the last flag) -> insertion mode, as the standard's steps list it"""
+    key, pcs = nfq.cells(ctx, TB, "::reset_insertion_mode")
+    table = {"tr": "InRow", "tbody": "InTableBody", "thead": "InTableBody", "tfoot": "InTableBody", "caption": "InCaption", "colgroup": "InColumnGroup",
+             "table": "InTable", "body": "InBody", "frameset": "InFrameset"}
+    n = 0
+    seen_modes = set()
+    for pc in nfq.feasible(pcs):
+        ret = str(pc["ret"])
+        g = pc["guards"]
+        pos = [k for k, v in g.items() if v and re.search(r"\.local matches (atom:[\w-]+\|?)+$", re.sub(r"#\d+$", "", k))]
+        html_ns = [v for k, v in g.items() if "matches ExpandedName{ns:atom:http://www.w3.org/1999/xhtml,local:_}" in k]
+        last = [v for k, v in g.items() if re.fullmatch(r"\(item\.0 == 0\)(#\d+)?", k)]
+        is_last = any(last)
+        names = set()
+        for k in pos:
+            names |= set(re.findall(r"atom:([\w-]+)", k.split(" matches ", 1)[1]))
+        if html_ns and not all(html_ns):
+            names = set()
+        exp = None
+        if len(pos) > 1:
+            continue  # two name tests on possibly different nodes (context element / stack node): decided by the later one, covered by the reference
+        if not names:
+            exp = "InBody"  # only reachable when last
+        else:
+            nm = sorted(names)[0]
+            if names <= {"td", "th"}:
+                exp = "InBody" if is_last else "InCell"
+            elif names <= {"head"}:
+                exp = "InBody" if is_last else "InHead"
+            elif names <= {"template"}:
+                exp = "self.template_modes.last().unwrap()"
+            elif names <= {"html"}:
+                none = any((v and k.startswith("self.head_elem matches None")) or (not v and k.startswith("self.head_elem matches Some(_)")) for k, v in g.items())
+                exp = "BeforeHead" if none else "AfterHead"
+            elif all(table.get(x) == table.get(nm) and x in table for x in names):
+                exp = table[nm]
+            else:
+                exp = "?"
+        n += 1
+        seen_modes.add(ret)
+        ctx.ob("R02.10", "reset-mode/%s%s" % ("|".join(sorted(names)) or "other", "/last" if is_last else ""), ret == exp,
+               "-> %s" % ret if ret == exp else "element %s (last=%s) resets the insertion mode to %s; the standard says %s" % (sorted(names) or "other", is_last, ret, exp),
+               "html5ever tree_builder reset_insertion_mode")
+    ctx.floor("R02.10", "reset-mode-paths", n, 20)
+    want = {"InCell", "InRow", "InTableBody", "InCaption", "InColumnGroup", "InTable", "InHead", "InBody", "InFrameset", "BeforeHead", "AfterHead", "self.template_modes.last().unwrap()"}
+    ctx.ob("R02.10", "reset-mode-all-targets", want <= seen_modes, "all %d target modes are produced" % len(want) if want <= seen_modes else "never produced: %s" % sorted(want - seen_modes))
 
 
 def r02_8(ctx):
@@ -499,6 +548,8 @@ def r02_8(ctx):
 def run(ctx):
     ctx.rule("R02.8", "tag dispatch of every insertion mode and of foreign content equals the independent transcription of the standard's rows: one handling per row, unlisted names handled like a fresh name, rows distinct except where the standard says 'act as anything else'")
     ctx.guard("R02.8", "dispatch", lambda: r02_8(ctx))
+    ctx.rule("R02.10", "reset the insertion mode appropriately: element name and last flag select the mode the standard lists")
+    ctx.guard("R02.10", "reset", lambda: r02_10(ctx))
     ctx.rule("R02.9", "quirks-mode tables equal the standard's lists; each is read case-insensitively by prefix/equality on the right identifier; the decision order is the standard's")
     ctx.guard("R02.9", "quirks", lambda: r02_9(ctx))
     ctx.rule("R02.7", "for selected InBody rules the 'has an element in X scope' test uses the scope the standard prescribes (list item / button / default)")
